@@ -1,0 +1,276 @@
+//go:build verif
+
+package erasurecoding
+
+import (
+	"bytes"
+	"context"
+	"io"
+	"sort"
+	"sync"
+
+	"github.com/jdillenkofer/pithos/internal/storage/database"
+	"github.com/jdillenkofer/pithos/internal/storage/metadatapart/partstore"
+)
+
+// Ghost scenarios for the contracts in zz_contracts_verif.go (see /verif/DESIGN.md). The erasure-coding store encodes,
+// decodes and heals in goroutines over pipes and calls klauspost/reedsolomon: outside what the deductive engine
+// decides. The scenarios below run the REAL store over in-memory shard stores and are the oracles of a BOUNDED random
+// search (they can find a violation; finding none proves nothing).
+
+// verifMemStore is a shard store that keeps parts in memory.
+type verifMemStore struct {
+	mu    sync.Mutex
+	parts map[partstore.PartId][]byte
+}
+
+func newVerifMemStore() *verifMemStore { return &verifMemStore{parts: map[partstore.PartId][]byte{}} }
+
+func (s *verifMemStore) Start(ctx context.Context) error { return nil }
+func (s *verifMemStore) Stop(ctx context.Context) error  { return nil }
+
+func (s *verifMemStore) PutPart(ctx context.Context, tx database.Tx, id partstore.PartId, r io.Reader) error {
+	b, err := io.ReadAll(r)
+	if err != nil {
+		return err
+	}
+	s.mu.Lock()
+	defer s.mu.Unlock()
+	s.parts[id] = b
+	return nil
+}
+
+func (s *verifMemStore) GetPart(ctx context.Context, tx database.Tx, id partstore.PartId) (io.ReadCloser, error) {
+	s.mu.Lock()
+	defer s.mu.Unlock()
+	b, ok := s.parts[id]
+	if !ok {
+		return nil, partstore.ErrPartNotFound
+	}
+	return io.NopCloser(bytes.NewReader(append([]byte{}, b...))), nil
+}
+
+func (s *verifMemStore) GetPartIds(ctx context.Context, tx database.Tx) ([]partstore.PartId, error) {
+	s.mu.Lock()
+	defer s.mu.Unlock()
+	var ids []partstore.PartId
+	for id := range s.parts {
+		ids = append(ids, id)
+	}
+	sort.Slice(ids, func(i, j int) bool { return ids[i].String() < ids[j].String() })
+	return ids, nil
+}
+
+func (s *verifMemStore) DeletePart(ctx context.Context, tx database.Tx, id partstore.PartId) error {
+	s.mu.Lock()
+	defer s.mu.Unlock()
+	delete(s.parts, id)
+	return nil
+}
+
+func verifBody(seed []byte, n int) []byte {
+	out := make([]byte, n)
+	state := uint32(2463534242) + uint32(n)
+	for _, b := range seed {
+		state = state*31 + uint32(b)
+	}
+	for i := range out {
+		state ^= state << 13
+		state ^= state >> 17
+		state ^= state << 5
+		out[i] = byte(state)
+	}
+	return out
+}
+
+// verifECSetup builds a store over in-memory shard stores, writes a pseudo-random part and returns everything a
+// scenario needs. Sizes cluster around the stripe capacity (dataShards*1024) and its multiples, plus small and empty bodies.
+func verifECSetup(seed []byte, length uint32, shape uint8) (store partstore.PartStore, mems []*verifMemStore, id partstore.PartId, data []byte, dataShards int, parityShards int, ok bool) {
+	dataShards = 1 + int(shape%3)
+	parityShards = 1 + int(shape/3%2)
+	total := dataShards + parityShards
+	stores := make([]partstore.PartStore, total)
+	mems = make([]*verifMemStore, total)
+	for i := range stores {
+		mems[i] = newVerifMemStore()
+		stores[i] = mems[i]
+	}
+	store, err := NewWithPartStores(dataShards, parityShards, 1024, stores)
+	if err != nil {
+		return nil, nil, id, nil, 0, 0, false
+	}
+	capacity := dataShards * 1024
+	n := int((uint64(length) * 2654435761 >> 11) % uint64(3*capacity+7))
+	if length%5 == 0 {
+		n = capacity*(1+int(length/5%3)) + int(length/15%5) - 2
+	}
+	if n < 0 {
+		n = 0
+	}
+	data = verifBody(seed, n)
+	pid, err := partstore.NewRandomPartId()
+	if err != nil {
+		return nil, nil, id, nil, 0, 0, false
+	}
+	if err := store.PutPart(context.Background(), nil, *pid, bytes.NewReader(data)); err != nil {
+		return nil, nil, id, nil, 0, 0, false
+	}
+	return store, mems, *pid, data, dataShards, parityShards, true
+}
+
+// verifFrameBoundaries lists the offsets in a shard at which a frame ends (and the next one would start), the shard
+// header included, for a part of n bytes: the layout PutPart writes.
+func verifFrameBoundaries(n int, dataShards int) map[int]bool {
+	out := map[int]bool{shardHeaderSize: true}
+	off := shardHeaderSize
+	capacity := dataShards * 1024
+	for rest := n; rest > 0; rest -= capacity {
+		in := rest
+		if in > capacity {
+			in = capacity
+		}
+		off += frameHeaderSize + (in+dataShards-1)/dataShards
+		out[off] = true
+	}
+	return out
+}
+
+func verifECRead(store partstore.PartStore, id partstore.PartId) ([]byte, error) {
+	rc, err := store.GetPart(context.Background(), nil, id)
+	if err != nil {
+		return nil, err
+	}
+	defer rc.Close()
+	return io.ReadAll(rc)
+}
+
+// verifECFaultTolerance: write a part, damage the shards selected by faultMask (kind per shard: missing / truncated at
+// a cut point that is not a frame boundary / one byte flipped / emptied), read it back. With at most parityShards
+// damaged shards the read returns exactly the bytes written (C15: every size; C17: every fault combination) and a
+// second read after healing does too; with more damaged shards the read either fails or still returns exactly the
+// bytes written - never other bytes and never a short body without an error. A part all of whose shards are gone
+// reads as not found.
+func verifECFaultTolerance(seed []byte, length uint32, shape uint8, faultMask uint16, kinds uint32, cut uint32) bool {
+	store, mems, id, data, dataShards, parityShards, ok := verifECSetup(seed, length, shape)
+	if !ok {
+		return false
+	}
+	boundaries := verifFrameBoundaries(len(data), dataShards)
+	faulty, missing := 0, 0
+	for i := range mems {
+		if faultMask&(1<<uint(i)) == 0 {
+			continue
+		}
+		faulty++
+		b := mems[i].parts[id]
+		switch (kinds >> (2 * uint(i))) % 4 {
+		case 0:
+			delete(mems[i].parts, id)
+			missing++
+		case 1:
+			if len(b) > 0 {
+				at := int(cut) % len(b)
+				for boundaries[at] && at > 0 {
+					at-- // a cut exactly between two frames is the subject of verifECCutBetweenFrames
+				}
+				mems[i].parts[id] = append([]byte{}, b[:at]...)
+			}
+		case 2:
+			if len(b) > 0 {
+				c := append([]byte{}, b...)
+				at := int(cut) % len(c)
+				if verifInDataBytesField(at, len(data), dataShards) {
+					at += 4 // the unauthenticated length field is the subject of verifECLengthFieldFlip
+					if at >= len(c) {
+						at = len(c) - 1
+					}
+				}
+				c[at] ^= 0x5a
+				mems[i].parts[id] = c
+			}
+		default:
+			mems[i].parts[id] = []byte{}
+		}
+	}
+	got, err := verifECRead(store, id)
+	if missing == len(mems) {
+		return err == partstore.ErrPartNotFound
+	}
+	if faulty <= parityShards {
+		if err != nil || !bytes.Equal(got, data) {
+			return false
+		}
+		again, err := verifECRead(store, id)
+		return err == nil && bytes.Equal(again, data)
+	}
+	return err != nil || bytes.Equal(got, data)
+}
+
+// verifECCutBetweenFrames: EVERY shard is cut at the same frame boundary (a whole number of stripes is lost on all
+// shards at once). The read must fail rather than return a shorter body.
+func verifECCutBetweenFrames(seed []byte, length uint32, shape uint8, keepStripes uint8) bool {
+	store, mems, id, data, dataShards, _, ok := verifECSetup(seed, length, shape)
+	if !ok {
+		return false
+	}
+	capacity := dataShards * 1024
+	stripes := (len(data) + capacity - 1) / capacity
+	if stripes < 2 {
+		return true // nothing to cut between
+	}
+	keep := 1 + int(keepStripes)%(stripes-1)
+	off := shardHeaderSize
+	rest := len(data)
+	for s := 0; s < keep; s++ {
+		in := rest
+		if in > capacity {
+			in = capacity
+		}
+		off += frameHeaderSize + (in+dataShards-1)/dataShards
+		rest -= in
+	}
+	for i := range mems {
+		b := mems[i].parts[id]
+		if off > len(b) {
+			return false
+		}
+		mems[i].parts[id] = append([]byte{}, b[:off]...)
+	}
+	got, err := verifECRead(store, id)
+	return err != nil || bytes.Equal(got, data)
+}
+
+// verifInDataBytesField: offset `at` of a shard lies in the dataBytes field (bytes 8..11) of one of its frame headers.
+func verifInDataBytesField(at int, n int, dataShards int) bool {
+	off := shardHeaderSize
+	capacity := dataShards * 1024
+	for rest := n; rest > 0; rest -= capacity {
+		if at >= off+8 && at < off+12 {
+			return true
+		}
+		in := rest
+		if in > capacity {
+			in = capacity
+		}
+		off += frameHeaderSize + (in+dataShards-1)/dataShards
+	}
+	return false
+}
+
+// verifECLengthFieldFlip: ONE shard (the first one) has a flipped bit in the dataBytes field of its first frame header;
+// everything else is intact. One damaged shard is within every parity budget, so the read must return exactly the
+// bytes written.
+func verifECLengthFieldFlip(seed []byte, length uint32, shape uint8, bit uint8) bool {
+	store, mems, id, data, _, _, ok := verifECSetup(seed, length, shape)
+	if !ok {
+		return false
+	}
+	if len(data) == 0 {
+		return true
+	}
+	c := append([]byte{}, mems[0].parts[id]...)
+	c[shardHeaderSize+8+3-int(bit/8%4)] ^= 1 << (bit % 8)
+	mems[0].parts[id] = c
+	got, err := verifECRead(store, id)
+	return err == nil && bytes.Equal(got, data)
+}
